@@ -22,21 +22,21 @@ def showSent (l : List (Bytes × Bool)) : String :=
 
 /-- read a vector as a one-exchange plan for retry count `r` (the attempts up to the one that ends the unit) and the
 letters left over (attempts the client must never make) -/
-def plan1OfVector (r : Nat) (reply : Bytes) : List Char → List Bool → Plan1 × List Char
+def plan1OfVector (r : Nat) (reply bad : Bytes) : List Char → List Bool → Plan1 × List Char
   | [], fails => (⟨fails, none⟩, [])
   | c :: rest, fails =>
     if fails.length == r + 1 then (⟨fails, none⟩, c :: rest)
-    else if c == 'S' then plan1OfVector r reply rest (fails ++ [false])
-    else if c == 'F' then plan1OfVector r reply rest (fails ++ [true])
-    else if c == 'M' then (⟨fails, some malformedDatagram⟩, rest)
+    else if c == 'S' then plan1OfVector r reply bad rest (fails ++ [false])
+    else if c == 'F' then plan1OfVector r reply bad rest (fails ++ [true])
+    else if c == 'M' then (⟨fails, some bad⟩, rest)
     else (⟨fails, some reply⟩, rest)
 
 /-- deliveries / flags of the left-over letters: the arbitrary continuation of the theorems -/
-def leftover1 (reply : Bytes) (cs : List Char) : List Delivery × List Bool :=
+def leftover1 (reply bad : Bytes) (cs : List Char) : List Delivery × List Bool :=
   cs.foldl (fun (acc : List Delivery × List Bool) c =>
     let p : Plan1 :=
       if c == 'S' then ⟨[false], none⟩ else if c == 'F' then ⟨[true], none⟩
-      else if c == 'M' then ⟨[], some malformedDatagram⟩ else ⟨[], some reply⟩
+      else if c == 'M' then ⟨[], some bad⟩ else ⟨[], some reply⟩
     (acc.1 ++ p.deliveries, acc.2 ++ p.faults)) ([], [])
 
 end Gd.Run
